@@ -40,6 +40,8 @@ fn descriptor_text(deps: &[String], os: &Option<String>, bp_uri: &str) -> String
 }
 
 const FIXED_KINDS: [&str; 7] = ["libcnb:x/y", "libcnb:z", "a/../b", "/abs/dir/../p", "docker://docker.io/org/img:1.2", "https://example.com/a/../b.cnb?q=1#frag", "urn:cnb:registry:org/bp@1.0.0"];
+/// `libcnb:` references whose id can never have a packaged location (not a valid buildpack id, or reserved): an error
+const BAD_LIBCNB: [&str; 4] = ["libcnb:demo_one", "libcnb:app", "libcnb:", "libcnb:sbom"];
 
 /// reference: lexical normalisation of parent/rel (absolute, no '.', '..', empty segments)
 fn lexical(parent: &Path, rel: &str) -> String {
@@ -66,8 +68,14 @@ type Viol = (String, String, serde_json::Value);
 fn run_case(c: &Case) -> (Vec<Viol>, String) {
     let sc = Scratch::new("c14");
     let root = &sc.path;
+    // "via-link/<x>": the source directory is reached through a symbolic link (link -> real-src); the
+    // paths a relative dependency denotes are relative to the location the caller named
     let src = root.join(&c.src);
     let dst = root.join("dst");
+    if let Some(rest) = c.src.strip_prefix("via-link/") {
+        std::fs::create_dir_all(root.join("elsewhere/real-src").join(rest)).unwrap();
+        std::os::unix::fs::symlink(root.join("elsewhere/real-src"), root.join("via-link")).unwrap();
+    }
     std::fs::create_dir_all(&src).unwrap();
     std::fs::create_dir_all(&dst).unwrap();
     let bptoml = "api = \"0.10\"\n\n[buildpack]\nid = \"verif/meta\"\nversion = \"0.0.1\"\n\n[[order]]\n\n[[order.group]]\nid = \"x/y\"\nversion = \"0.0.1\"\n";
@@ -91,7 +99,7 @@ fn run_case(c: &Case) -> (Vec<Viol>, String) {
     let r = package_composite_buildpack(&src, &dst, &map);
     let replay = json!({"case": c});
     let mut v: Vec<Viol> = Vec::new();
-    let missing = c.deps.iter().any(|d| (d == "libcnb:x/y" && (c.map == 1 || c.map == 3)) || (d == "libcnb:z" && (c.map == 2 || c.map == 3)));
+    let missing = c.deps.iter().any(|d| (d == "libcnb:x/y" && (c.map == 1 || c.map == 3)) || (d == "libcnb:z" && (c.map == 2 || c.map == 3)) || BAD_LIBCNB.contains(&d.as_str()));
     let outcome;
     match r {
         Err(e) => {
@@ -241,7 +249,7 @@ pub fn run(args: &Args) {
         tuples.extend(next.clone());
         level = next;
     }
-    let srcs = ["s", "deep/er/s", "w+s/u@h,x=y;z"];
+    let srcs = ["s", "deep/er/s", "w+s/u@h,x=y;z", "via-link/inner"];
     for t in &tuples {
         for map in 0..4u8 {
             for (i, src) in srcs.iter().enumerate() {
@@ -265,6 +273,12 @@ pub fn run(args: &Args) {
                     }
                 }
             }
+        }
+    }
+    for bad in BAD_LIBCNB {
+        for map in [0u8, 3] {
+            cases.push(Case { deps: vec![bad.to_string()], map, src: "s".into(), os: None, bp_uri: ".".into(), prev: None });
+            cases.push(Case { deps: vec!["libcnb:z".into(), bad.to_string(), "docker://x/y".into()], map, src: "s".into(), os: None, bp_uri: ".".into(), prev: None });
         }
     }
     // relative path shapes
@@ -306,7 +320,7 @@ pub fn run(args: &Args) {
     rep.cov("repackaging_pairs", pairs);
     rep.cov("dependency_tuples", tuples.len() as u64);
     rep.cov("distinct_outcomes", json!(outcomes));
-    rep.cov("rule", "package.toml documents built from all ordered dependency tuples (repetition allowed) over 7 URI kinds x id->path maps {complete, missing x/y, missing z, empty} x 3 source locations (one with the URI-safe sub-delimiters + @ , = ;) x platform x 7 buildpack uris (., ./, relative, parent-relative, absolute, docker, urn), plus every ordered pair of 18 descriptors packaged one after the other into the same destination (the second result must be what a fresh destination gives), plus every relative path of <= k segments over {a, ., .., empty} with/without leading ./ and trailing /, run through the real package_composite_buildpack; the written file is re-read generically and compared with the reference (lexical normalisation). non-trivial = at least one dependency");
+    rep.cov("rule", "package.toml documents built from all ordered dependency tuples (repetition allowed) over 7 URI kinds x id->path maps {complete, missing x/y, missing z, empty} x 4 source locations (one with the URI-safe sub-delimiters + @ , = ;, one reached through a symbolic link), libcnb: references with an invalid or reserved id x platform x 7 buildpack uris (., ./, relative, parent-relative, absolute, docker, urn), plus every ordered pair of 18 descriptors packaged one after the other into the same destination (the second result must be what a fresh destination gives), plus every relative path of <= k segments over {a, ., .., empty} with/without leading ./ and trailing /, run through the real package_composite_buildpack; the written file is re-read generically and compared with the reference (lexical normalisation). non-trivial = at least one dependency");
     rep.cov("bound", json!({"max_tuple_len": max_len, "max_segments": max_segs}));
     rep.cov("exhaustive", true);
     rep.sample(json!(cases[cases.len() / 3]));
